@@ -85,9 +85,13 @@ def setup_ops(c):
     return [("L", c["hdr16"])] + [("B", bid, data) for bid, data in c["blocks"]]
 
 
+class SubHeader(tr31.Header):
+    """a caller's own subclass of Header (isinstance(h, Header) holds): must be treated like a Header"""
+
+
 def impl_header(c):
-    """a fresh Header object holding the case's fields / reserved / blocks"""
-    h = tr31.Header()
+    """a fresh Header object holding the case's fields / reserved / blocks (for every other case an instance of a subclass)"""
+    h = (SubHeader if sum(map(ord, c["hdr16"])) % 2 else tr31.Header)()
     h.load(c["hdr16"])
     for bid, data in c["blocks"]:
         core.set_block(h.blocks, bid, data)
